@@ -432,6 +432,48 @@ func extractStore(t *T) (string, error) {
 		}
 	}
 
+
+	// onDiskStore.List: every regular file of the directory yields one entry (a name that does not parse is logged and
+	// yields the zero ID); nothing that parses is dropped
+	listAppendsEvery, listSkipsOnlyDirs := false, false
+	if fd := FuncDecl(f, "onDiskStore", "List"); fd != nil {
+		ast.Inspect(fd.Body, func(n ast.Node) bool {
+			fl, ok := n.(*ast.FuncLit)
+			if !ok {
+				return true
+			}
+			okSoFar, seenAppend := true, false
+			for _, st := range fl.Body.List {
+				src := normSrc(t.Src(rel, st))
+				if seenAppend {
+					continue
+				}
+				switch x := st.(type) {
+				case *ast.IfStmt:
+					cond := normSrc(t.Src(rel, x.Cond))
+					body := normSrc(t.Src(rel, x.Body))
+					switch {
+					case cond == "err != nil" && (body == "{ return err }" || !strings.Contains(body, "return")):
+					case cond == "info.IsDir()" && body == "{ return nil }":
+						listSkipsOnlyDirs = true
+					default:
+						okSoFar = false // some other way not to list a file
+					}
+				case *ast.AssignStmt:
+					if src == "ids = append(ids, id)" {
+						seenAppend = true
+					}
+				default:
+					if strings.Contains(src, "return") || strings.Contains(src, "continue") {
+						okSoFar = false
+					}
+				}
+			}
+			listAppendsEvery = okSoFar && seenAppend
+			return false
+		})
+	}
+
 	var sb strings.Builder
 	sb.WriteString("From Coq Require Import List NArith Bool.\nImport ListNotations.\nLocal Open Scope N_scope.\n\n")
 	sb.WriteString("(* store/disk.go *)\n")
@@ -466,5 +508,7 @@ func extractStore(t *T) (string, error) {
 	sb.WriteString("Definition batch_delete_is_per_id_loop : bool := " + coqBool(wcsDeleteLoop && uncheckedForwards) + ".\n")
 	sb.WriteString("(* store/disk.go Delete: the loop over the IDs is left only by returning the error of a failed os.Remove *)\n")
 	sb.WriteString("Definition disk_delete_stops_with_the_error : bool := " + coqBool(diskDeleteStops) + ".\n")
+	sb.WriteString("(* store/disk.go List: every regular file yields one entry; only directories are skipped *)\n")
+	sb.WriteString("Definition list_yields_every_file : bool := " + coqBool(listAppendsEvery && listSkipsOnlyDirs) + ".\n")
 	return sb.String(), nil
 }
